@@ -595,6 +595,14 @@ static void gen_intervals(struct scen *sc, struct rng *r, long c)
 		if (rndp(r, 1, 2))
 			add_event(&sc->cfg, 4 + rndn(r, 20), 2, 0);
 	}
+	if (x % 7 == 3) {
+		/* a cache without data: the response is Cache Response + End of Data and nothing else - the intervals in
+		 * that End of Data count all the same */
+		sc->init_records = 0;
+		sc->init_keys = 0;
+		sc->cfg.ntevent = 0;
+		CNT("c17/scenarios_with_payload_less_responses");
+	}
 }
 
 static void gen_reload(struct scen *sc, struct rng *r, long c)
